@@ -220,6 +220,14 @@ pub fn plan(prop: &str) -> Vec<Item> {
             }
             v.push(it("sync_states", "pool=1,st=5,n=1", Some(2), 3));
             v.push(it("sync_states", "pool=0,st=5,n=2", Some(2), 4));
+            for kind in [0, 1] {
+                v.push(it("wake_stale_entry", &format!("pool=1,kind={}", kind), Some(2), 3));
+            }
+            v.push(it("wake_stale_entry", "pool=2,kind=0", Some(1), 2));
+            // the future is polled once by a task that then neither re-polls nor drops it: the pool takes over
+            for pool in [1, 2] {
+                v.push(it("fd_result", &format!("pool={},mode=5", pool), Some(if pool == 1 { 2 } else { 1 }), if pool == 1 { 3 } else { 2 }));
+            }
             v.push(it("excl_susp", "pool=1,kind=0", Some(2), 3));
             // generated programs with gated operations, every waker ever handed out fired once more (stale wake-ups)
             v.extend(prog_pairs(&["FDa", "FDd", "FSa", "AF", "FDx", "FSx"], "pool=1,stale=1", false, Some(1), 2, 1));
@@ -238,6 +246,12 @@ pub fn plan(prop: &str) -> Vec<Item> {
                 }
             }
             v.push(it("fd_result", "pool=1,mode=0,gated=0", Some(2), 3));
+            for mode in [5, 6] {
+                for pool in [1, 2] {
+                    v.push(it("fd_result", &format!("pool={},mode={}", pool, mode), Some(if pool == 1 { 2 } else { 1 }), if pool == 1 { 3 } else { 2 }));
+                }
+                v.push(it("fd_result", &format!("pool=0,mode={}", mode), Some(2), 3));
+            }
             v.push(it("fd_result", "pool=1,mode=1,gated=0", Some(2), 3));
             v.push(it("fd_result", "pool=1,mode=3,k=2", Some(2), 3));
             v.push(it("fd_result", "pool=0,mode=3,k=2", Some(3), 4));
@@ -259,6 +273,12 @@ pub fn plan(prop: &str) -> Vec<Item> {
             }
             v.push(it("fs_cancel", "pool=0,mode=0", Some(3), 4));
             v.push(it("fs_cancel", "pool=1,mode=3,ahead=1", Some(2), 3));
+            for mode in [2, 3] {
+                for syncer in [1, 2] {
+                    v.push(it("fs_cancel", &format!("pool=1,mode={},syncer={}", mode, syncer), Some(if syncer == 2 { 2 } else { 1 }), 2));
+                }
+                v.push(it("fs_cancel", &format!("pool=0,mode={},syncer=1", mode), Some(2), 3));
+            }
             v.push(it("fs_cancel", "pool=1,mode=0,ahead=1", Some(2), 3));
             for shape in 0..4 {
                 v.push(it("fs_nested", &format!("pool=1,shape={}", shape), Some(2), 3));
@@ -332,6 +352,8 @@ pub fn plan(prop: &str) -> Vec<Item> {
                 }
             }
             v.push(it("pipe_out", "pool=2,n=2,d=1,pat=1", Some(1), 2));
+            v.push(it("pipe_steal", "pool=1", Some(2), 3));
+            v.push(it("pipe_steal", "pool=2", Some(1), 2));
             v.push(it("pipe_out", "pool=1,n=4,d=3,pat=2", None, 2));
             v.push(it("pipe_out", "pool=1,n=4,d=1,pat=1", None, 2));
             // long inputs, default-sized and larger buffers, at a low preemption bound
@@ -431,7 +453,7 @@ pub fn owners(scenario: &str, part: &str) -> Vec<&'static str> {
     let class = class_of(part);
     let liveness: Vec<&'static str> = match scenario {
         "sync_states" | "f3_sync_sync" | "f3_nested_sync" => vec!["C04", "C03"],
-        "wake_ctx" => vec!["C06"],
+        "wake_ctx" | "wake_stale_entry" => vec!["C06"],
         "fd_result" | "fd_two" => vec!["C07", "C04"],
         "fs_cancel" | "fs_nested" => vec!["C08"],
         "try_paths" | "f1_try_sync_idle_nonempty" => vec!["C09", "C03"],
@@ -444,7 +466,7 @@ pub fn owners(scenario: &str, part: &str) -> Vec<&'static str> {
         "excl_drop" => vec!["C07", "C01", "C04"],
         "order_ctx" => vec!["C02", "C03"],
         "pipe_in_items" => vec!["C11", "C03"],
-        "pipe_out" => vec!["C12"],
+        "pipe_out" | "pipe_steal" => vec!["C12"],
         "pipe_drop_output" => vec!["C16"],
         "f2_dormant_race" | "desync_then_sync" | "stale_entry" => vec!["C03"],
         "prog" => {
@@ -492,6 +514,10 @@ pub fn owners(scenario: &str, part: &str) -> Vec<&'static str> {
         }
         "STRANDED" | "UNFINISHED" | "NOT-QUIET" | "DUPLICATE" => {
             let mut v = vec!["C03"];
+            if part.contains("polled once and then left alone") {
+                // the wake-up arrived and nobody polled the operation again
+                v.push("C06");
+            }
             v.extend(liveness.iter());
             v
         }
